@@ -253,8 +253,26 @@ HeapMatches(h, x, obs) ==
   /\ (x.ub = {}) = (Len(obs.ub) = 0)
 
 \* micro-steps that leave no line in the trace
+\* The order in which a collected group is destroyed is the iteration order of a hash map: the
+\* model allows every order, the trace says which one it was (the `dtor` lines that follow).
+\* Reading it from the log keeps the search linear (10 members would be 10! branches).
+LookAhead == SubSeq(Rec, l, IF Len(Rec) < l + 600 THEN Len(Rec) ELSE l + 600)
+RECURSIVE OrderFrom(_, _, _)
+OrderFrom(lines, S, acc) ==
+  IF lines = <<>> \/ S = {} THEN acc
+  ELSE LET h == Head(lines) IN
+       IF h.k = "reset" THEN acc
+       ELSE IF h.k = "dtor" /\ h.a \in S THEN OrderFrom(Tail(lines), S \ {h.a}, Append(acc, h.a))
+       ELSE OrderFrom(Tail(lines), S, acc)
+RECURSIVE Rest(_)
+Rest(S) == IF S = {} THEN <<>> ELSE LET x == CHOOSE x \in S : TRUE IN <<x>> \o Rest(S \ {x})
+LoggedOrder(S) == LET o == OrderFrom(LookAhead, S, <<>>)
+                  IN o \o Rest(S \ {o[i] : i \in 1..Len(o)})
+ConfMark == /\ Stack # <<>> /\ Top.pc = "mark"
+            /\ StepMarkO(IF MarkFreed # {} THEN <<>> ELSE LoggedOrder(MarkSet))
+
 Silent ==
-  \/ StepDrop \/ StepOrphan \/ StepBust \/ StepMark \/ StepCycleDestroy \/ StepRelease
+  \/ StepDrop \/ StepOrphan \/ StepBust \/ ConfMark \/ StepCycleDestroy \/ StepRelease
   \/ StepUninit \/ StepPostValue \/ StepUnwindSkip
   \/ /\ StepValuePanic /\ ctl'.mode = "run"                   \* the scripted panic itself
   \/ /\ StepValueScript /\ ctl'.stack = ScriptBase            \* no script / script skipped
